@@ -27,6 +27,8 @@ fn tag3_value(rng: &mut Rng, tag: &str) -> String {
         "108" | "424" if rng.below(5) == 0 => { let n = rng.range(1, 12); let core = s_from(rng, ALNUM, n); match rng.below(3) { 0 => format!("{core}  "), 1 => format!(" {core}"), _ => format!("{} {}", core, "X") } }
         "108" => { let n = rng.range(1, 16); s_from(rng, ALNUM, n) }
         "119" => rng.pick(&["STP", "REMIT", "COV", "RFDD"]).to_string(),
+        // YYMMDDHHMMSS[ss]; every tenth value a near miss of another length (the library accepts those and must then keep them whole)
+        "423" if rng.below(10) == 0 => { let n = *rng.pick(&[13usize, 15, 16, 18]); s_from(rng, DIG, n) }
         "423" => format!("{}{}{}", s_from(rng, DIG, 6), s_from(rng, DIG, 6), if rng.below(2) == 0 { s_from(rng, DIG, 2) } else { String::new() }),
         "106" => format!("{}{}{}{}", s_from(rng, DIG, 6), s_from(rng, ALNUM, 12), s_from(rng, DIG, 4), s_from(rng, DIG, 6)),
         "424" => { let n = rng.range(1, 16); s_from(rng, ALNUM, n) }
@@ -34,7 +36,7 @@ fn tag3_value(rng: &mut Rng, tag: &str) -> String {
         "121" => format!("{}-{}-4{}-a{}-{}", s_from(rng, "0123456789abcdef", 8), s_from(rng, "0123456789abcdef", 4), s_from(rng, "0123456789abcdef", 3), s_from(rng, "0123456789abcdef", 3), s_from(rng, "0123456789abcdef", 12)),
         "115" => { let n = rng.range(1, 32); s_from(rng, ALNUM, n) }
         // the library documents 165 as `3!c/34x`, 433/434 as `3!a/[20x]`
-        "165" => format!("{}/{}", s_from(rng, ALNUM, 3), s_from(rng, ALNUM, 10)),
+        "165" => { let n = *rng.pick(&[0usize, 1, 10, 20, 21, 33, 34]); format!("{}/{}", s_from(rng, ALNUM, 3), s_from(rng, ALNUM, n)) }
         "433" => if rng.below(2) == 0 { format!("{}/", *rng.pick(&["AOK", "FPO", "NOK"])) } else { format!("{}/{}", *rng.pick(&["AOK", "FPO", "NOK"]), s_from(rng, ALNUM, 8)) },
         "434" => if rng.below(2) == 0 { format!("{}/", s_from(rng, "ABCDEFGHIJKLMNOPQRSTUVWXYZ", 3)) } else { format!("{}/{}", s_from(rng, "ABCDEFGHIJKLMNOPQRSTUVWXYZ", 3), s_from(rng, ALNUM, 8)) },
         _ => "X".into(),
@@ -199,6 +201,9 @@ fn judge_inner(rep: &mut Report, env: &Envelope, class: &str) {
             // block 3: every tag and value preserved
             match (&env.b3, block_body(&out, 3)) {
                 (Some(tags), got) => {
+                    if got.is_none() {
+                        rep.fail("block_lost|block3|present-in-input", w("block 3 was present in the input and is missing from the output", json!({"input_tags": tags.len()})));
+                    }
                     let have = items(got.unwrap_or(""));
                     for (k, v) in tags {
                         if !have.iter().any(|(k2, v2)| k2 == k && v2.as_deref() == Some(v.as_str())) {
@@ -215,6 +220,9 @@ fn judge_inner(rep: &mut Report, env: &Envelope, class: &str) {
             }
             match (&env.b5, block_body(&out, 5)) {
                 (Some(tags), got) => {
+                    if got.is_none() {
+                        rep.fail("block_lost|block5|present-in-input", w("block 5 was present in the input and is missing from the output", json!({"input_tags": tags.len()})));
+                    }
                     let have = items(got.unwrap_or(""));
                     for (k, v) in tags {
                         if !have.iter().any(|(k2, v2)| k2 == k && (v2 == v || (v.is_none() && v2.is_none()))) {
@@ -276,12 +284,14 @@ pub fn run(o: &Opts) -> Report {
         let b3 = if rng.below(4) > 0 {
             let mut tags: Vec<&str> = BLOCK3_TAGS.iter().filter(|_| rng.below(3) == 0).cloned().collect();
             if i % 50 == 0 { tags = BLOCK3_TAGS.to_vec(); }
+            if i % 50 == 7 { tags.clear(); }      // an empty block 3: `{3:}`
             if rng.below(3) == 0 { let k = tags.len(); for a in (1..k).rev() { let b = rng.below(a + 1); tags.swap(a, b); } }
             Some(tags.iter().map(|t| (t.to_string(), tag3_value(&mut rng, t))).collect::<Vec<_>>())
         } else { None };
         let b5 = if rng.below(4) > 0 {
             let mut tags: Vec<&str> = BLOCK5_TAGS.iter().filter(|_| rng.below(3) == 0).cloned().collect();
             if i % 50 == 1 { tags = BLOCK5_TAGS.to_vec(); }
+            if i % 50 == 9 { tags.clear(); }      // an empty block 5: `{5:}`
             // the trailer tags in any order (CHK need not come first)
             if rng.below(2) == 0 { let k = tags.len(); for a in (1..k).rev() { let b = rng.below(a + 1); tags.swap(a, b); } }
             Some(tags.iter().map(|t| (t.to_string(), tag5_value(&mut rng, t))).collect::<Vec<_>>())
